@@ -92,6 +92,8 @@ type Step struct {
 	Env  []string    `json:"env,omitempty"`
 	GMP  int         `json:"gomaxprocs,omitempty"`
 	Note string      `json:"note,omitempty"`
+	// HomeRel: see sim.Ctx
+	HomeRel string `json:"home_rel,omitempty"`
 }
 
 type StepResult struct {
@@ -141,13 +143,20 @@ func ExecSteps(env *sim.Env, root string, steps []Step, st *Stats) []StepResult 
 				r.Err = os.WriteFile(p, b, 0o644)
 			}
 		case "run":
+			if s.HomeRel != "" {
+				// make HOME exist before the "before" snapshot is taken
+				hd := filepath.Join(root, s.HomeRel, ".config", "go", "telemetry")
+				os.MkdirAll(hd, 0o755)
+				os.WriteFile(filepath.Join(hd, "mode"), []byte("off 2024-01-01\n"), 0o644)
+			}
 			pre, err := sim.TakeSnapshot(root)
 			if err != nil {
 				r.Err = err
 				break
 			}
 			r.Pre = pre
-			c := sim.Ctx{Binary: s.Bin, Args: s.Inv.Args(), Cwd: s.Inv.Cwd, Env: append([]string(nil), s.Env...), GoMaxProcs: s.GMP, Plan: s.Plan}
+			c := sim.Ctx{Binary: s.Bin, Args: s.Inv.Args(), Cwd: s.Inv.Cwd, Env: append([]string(nil), s.Env...), GoMaxProcs: s.GMP, Plan: s.Plan, HomeRel: s.HomeRel}
+
 			if c.Binary == "" {
 				c.Binary = "plain"
 			}
